@@ -78,6 +78,33 @@ def jwOneNorm (n : Nat) (A : List (List (Nat × Nat) × GQ)) (withId : Bool) : O
         if c.im ≠ 0 then none else some (a + rabs c.re)) acc) (some 0)
   r.map (· / (2 ^ n : Nat))
 
+/-! ### the molecular Hamiltonian of `get_one_norm_int` -/
+
+def m2 (h : List (List Rat)) (p q : Nat) : Rat := (h.getD p []).getD q 0
+def m4 (g : List (List (List (List Rat)))) (p q r s : Nat) : Rat := (((g.getD p []).getD q []).getD r []).getD s 0
+
+/-- `constant + Σ h_pq a†_{pσ} a_{qσ} + ½ Σ g_pqrs a†_{pσ} a†_{qτ} a_{rτ} a_{sσ}` over `n` spatial orbitals; spin orbital
+`2p + σ` (the operator `MolecularData.get_molecular_hamiltonian` builds from spatial integrals) -/
+def molOp (n : Nat) (const : Rat) (h : List (List Rat)) (g : List (List (List (List Rat)))) :
+    List (List (Nat × Nat) × GQ) :=
+  [([], (⟨const, 0⟩ : GQ))]
+  ++ ((List.range n).flatMap fun p => (List.range n).flatMap fun q => (List.range 2).map fun σ =>
+        ([(2 * p + σ, 1), (2 * q + σ, 0)], (⟨m2 h p q, 0⟩ : GQ)))
+  ++ ((List.range n).flatMap fun p => (List.range n).flatMap fun q => (List.range n).flatMap fun r =>
+        (List.range n).flatMap fun s => (List.range 2).flatMap fun σ => (List.range 2).map fun τ =>
+          ([(2 * p + σ, 1), (2 * q + τ, 1), (2 * r + τ, 0), (2 * s + σ, 0)], (⟨m4 g p q r s / 2, 0⟩ : GQ)))
+
+/-! ### operators in Pauli form -/
+
+/-- sum of `|c|` over the strings of a qubit operator stored as (Pauli string, real coefficient) pairs; the identity
+string `[]` is included iff `withId` -/
+def pauliListNorm (A : List (List (Nat × Nat) × GQ)) (withId : Bool) : Rat :=
+  (A.map fun tc => if tc.1 = [] ∧ withId = false then 0 else rabs tc.2.re).sum
+
+/-- a real `n × n` matrix (list of rows) as the row-major complex tensor the transforms take -/
+def flatReal (n : Nat) (M : List (List Rat)) : List GQ :=
+  (List.range (n * n)).map fun i => (⟨(M.getD (i / n) []).getD (i % n) 0, 0⟩ : GQ)
+
 /-! ### QROM helpers -/
 
 /-- `QR` statement: `k` minimises `L/2^k + M(2^k - 1)` over all `k' ≤ bound` and `val` is the ceiling
